@@ -51,7 +51,7 @@ fn date_offset_apply_no_day_offset() {
     apply_body(0)
 }
 
-//@H props=C01,C04 tier=thorough kind=bounded cap=3000 mem=medium bound="|day offset| <= 2" domain="all weekday offsets x all dates 1900..9999"
+//@H props=C01,C04 tier=deep kind=bounded cap=3000 mem=medium bound="|day offset| <= 2" domain="all weekday offsets x all dates 1900..9999"
 #[cfg_attr(kani, kani::proof)]
 #[cfg_attr(verif_replay, test)]
 fn date_offset_apply_small_day_offset() {
